@@ -48,7 +48,9 @@ class Stateful(InstructionGenerator):
         return replace(self, calls=self.calls + 1), instr
 
 
-SCENS = {"S1": ("S1", False), "S2": ("S2", False), "S3": ("S3", False), "S2+custom": ("S2", True), "S3/lazy": ("S3", False), "S2t": ("S2t", False)}
+SCENS = {"S1": ("S1", False), "S2": ("S2", False), "S3": ("S3", False), "S2+custom": ("S2", True), "S3/lazy": ("S3", False), "S2t": ("S2t", False),
+         # the same scenario under a step length that is not the 60 s every other scenario (and every default) uses
+         "S1/step45": ("S1", False)}
 
 
 def prepare(d: str, scen: str, n: int, odd_end: bool) -> str:
@@ -57,6 +59,8 @@ def prepare(d: str, scen: str, n: int, odd_end: bool) -> str:
     path = builder(d, lazy=scen.endswith("/lazy"))
     with open(path) as f:
         conf = yaml.safe_load(f)
+    if scen.endswith("/step45"):
+        conf["sim"]["timestep_duration_seconds"] = 45
     step = int(conf["sim"]["timestep_duration_seconds"])
     end = n * step - (17 if odd_end else 0)
     from .scen import iso
